@@ -25,10 +25,13 @@ session.commit()
 agg = Aggregator(session, top_level_only=False)
 m = agg.model
 ids = lambda a: sorted(f.id for f in a.fits)
+got = ids(agg.query((m.d == 1.0) | (m.d == "x")))
+print("(d == 1.0) | (d == 'x') returned", got, "expected ['f0', 'f1']  (Or case repaired by 766ce6b)")
+assert got == ["f0", "f1"], got
 try:
-    q = (m.d == 1.0) | (m.d == "x")
+    q = (m.d == 1.0) & (m.d == "x")
     print("no exception", ids(agg.query(q)))
     raise SystemExit("defect not reproduced")
 except AssertionError as e:
-    print("AssertionError:", e, "-- expected ['f0', 'f1']")
-print("reproduced: three-tables-assertion")
+    print("(d == 1.0) & (d == 'x') -> AssertionError:", e, "-- expected []")
+print("reproduced: three-tables-assertion (And case)")
